@@ -108,10 +108,12 @@ fn item_args(i: &Item) -> String {
 }
 
 fn call_id(s: &Script, pos: usize) -> String {
+    // ids whose lexicographic order differs from their emission order (call_9 < call_10 < call_11
+    // numerically, "call_10" < "call_11" < "call_9" as strings)
     if s.dup == Dup::SameCallId && pos == 1 {
-        "call_0".to_string()
+        "call_9".to_string()
     } else {
-        format!("call_{pos}")
+        format!("call_{}", 9 + pos)
     }
 }
 
@@ -312,7 +314,7 @@ fn run_case(report: &Report, rt: &Arc<tokio::runtime::Runtime>, provider: &Provi
             .map(|(m, _)| out.matches(m).count())
             .sum();
         if shared > 1 {
-            report.violation("C16:call_executed_twice:SameCallId", case(), &format!("two items sharing call id call_0 were both executed; out.txt = {out:?}"));
+            report.violation("C16:call_executed_twice:SameCallId", case(), &format!("two items sharing call id call_9 were both executed; out.txt = {out:?}"));
         }
     }
     for (marker, item) in [("<A>", Item::WriteA), ("<B>", Item::WriteB)] {
@@ -339,7 +341,7 @@ fn run_case(report: &Report, rt: &Arc<tokio::runtime::Runtime>, provider: &Provi
         report.violation("C16:tool_call_bound", case(), &format!("{started} tool_started frames in one run"));
     }
     for (_, cid, it) in &calls {
-        if s.dup == Dup::SameCallId && cid == "call_0" {
+        if s.dup == Dup::SameCallId && cid == "call_9" {
             continue;
         }
         if !allowed(choice, item_tool(it)) {
